@@ -253,6 +253,12 @@ func (area) runMergeCase(c *core.Ctx, r *rand.Rand) {
 	if sp.wide {
 		c.Branch("merge/slots>360")
 	}
+	if r.Intn(12) == 0 {
+		// the top of the uint16 slot range, one below the slot at which the slot loop wraps (finding F3)
+		hi := 65534 - r.Intn(3)
+		sp = slotPlan{lo: hi - 5 - r.Intn(40), hi: hi}
+		c.Branch("merge/slots-near-65535")
+	}
 	var never map[uint32]map[int]bool
 	if r.Intn(2) == 0 {
 		never = genNever(r, sc, pool)
@@ -1481,6 +1487,12 @@ func (a area) Run(c *core.Ctx) error {
 			a.scenarioStraddle(c)
 		case i == 10:
 			a.scenarioFault(c)
+		case i == 11:
+			a.witnessSlot65535(c)
+		case i == 12:
+			a.scenarioMixedShapes(c)
+		case i >= 13 && i%10 == 3:
+			a.runDamagedCase(c, r)
 		case i%2 == 1:
 			a.runMergeCase(c, r)
 		default:
